@@ -1357,7 +1357,8 @@ func (it *Interp) setupIntrinsics() {
 	T["encoding/json.Marshal"] = func(it *Interp, fn *ssa.Function, a []Value) Value {
 		mx, ok := it.cfg.Bounds["JSONLEN"]
 		if !ok {
-			it.outside("encoding/json.Marshal (reflection) - no JSONLEN bound declared by the harness")
+			// C11/C13: the message is an opaque token carrying the value (see zzverif.JSONMsg)
+			return Tuple{it.intrTab[zzPath+".JSONMsg"](it, fn, a), Iface{}}
 		}
 		n := it.choose(mx + 1)
 		it.jsonSeq++
